@@ -77,10 +77,10 @@ func genCase(rng *rand.Rand, n int, pErr, pPanic float64) *pipeCase {
 }
 
 type pipeResult struct {
-	calls     int
-	err       bool
-	quiesced  bool
-	schedule  []string
+	calls    int
+	err      bool
+	quiesced bool
+	schedule []string
 }
 
 func runPipeCase(rec *trace.Recorder, c *pipeCase, seed int64, free bool) pipeResult {
@@ -121,8 +121,8 @@ func runPipeCase(rec *trace.Recorder, c *pipeCase, seed int64, free bool) pipeRe
 			return nil
 		}}
 		return stagepkg.NewVerifStage(ctx, &stagepkg.VerifScript{
-			ID:     s,
-			Async:  c.Async[s],
+			ID:    s,
+			Async: c.Async[s],
 			PlanFn: func() stagepkg.PlanNode {
 				if c.Outcome[s] == "planpanic" {
 					// Plan() runs on the goroutine of the caller of executeStage (the parent's thread)
